@@ -70,6 +70,9 @@ CHECKS = {
     'C16': (EX, 'exhaustive enumeration of a finite configuration space (DAG x context filter x backend) with context recorded inside run(), virtual-OS start-method ground truth and real-process runs',
             'Context: inside run() self.context equals filter_context(lab.context) for every DAG shape n<=3 x identity/per-parameter filters x 3 contexts x cold/pre-cached, on the coordinator seam, the real SerialRunner and the real fork/spawn ProcessRunner over the virtual OS; keys and every stored byte are identical under two different contexts (fixed clock) and a sentinel context value occurs in no stored file. Process model: the start method requested for every virtual worker, and real serial/fork/spawn runs x max_workers x DAG reporting pid, parent pid, thread, start method and a parent-mutated module global from inside run().',
             'The process model is observable only on real processes: an enumerated finite list of real runs.', 'E2+E3+E4', '5/C16'),
+    'C14': (FE, 'exhaustive interrupt-point enumeration (sys.monitoring LINE events) layered on schedule exploration of the real runners over the virtual OS',
+            'KeyboardInterrupt is raised at the k-th labtech line executed by the calling thread during run_tasks, for every k, on the real SerialRunner and on the real fork/spawn ProcessRunner over the virtual multiprocessing layer (deterministic, so process-backend line points are enumerated rather than sampled) x every schedule within the deviation bound; double interrupts with the first at one representative event per distinct source line and the second at each following event. Oracle: KeyboardInterrupt leaves run_tasks, nothing is started after the interrupt, workers executing at the interrupt are never terminated and their results are cached, the cache stays consistent, no endless polling; after a second interrupt every executing worker is terminated before any further wait.',
+            'Line (not bytecode) granularity; interrupts only in labtech frames of the calling thread; the virtual layer runs workers eagerly, so the real race between fork and the worker ignoring SIGINT is outside the model; quick tier samples the first point of doubles.', 'E1+E3+E6', '5/C14'),
 }
 
 PENDING = {
